@@ -230,6 +230,9 @@ func Exec(env *Env, st store.Store, o Op, ss *simnode.Session, hook ReaderHook) 
 	var rootNode node.Node = st.Root()
 	if ss != nil {
 		rootNode = ss.Wrap(rootNode, "T", nil, "")
+		if ss.Outer != nil {
+			rootNode = ss.Outer(rootNode).(node.Node)
+		}
 	}
 	b := node.NewBrowser(env.Mod, rootNode)
 	sel, err := FindSel(b.Root(), o.At)
